@@ -19,18 +19,22 @@ ASSUMPTIONS = [
     "ValueError('all capacities 0') is an allowed outcome (unreachable under capacity > 0)",
 ]
 BOUNDS = {
-    "quick": "shapes (groups x batteries x inverters): 1x1x1, 1x1x2, 1x2x1 both directions, 2x(1x1) consume; exponent 1",
+    "quick": "shapes (groups x batteries x inverters): 1x1x1, 1x1x2, 1x2x1 both directions, 2x(1x1) consume; exponent 1; manager-level accounting for 1 group; "
+             "2 groups x 2 inverters with non-binding battery limits (budgeted 100 s, not exhaustive)",
     "thorough": "quick + 2x(1x1) supply, exponents 0 and 2, (1x1 | 1x2), (1x2 | 1x1) mixed shapes, 3x(1x1) budgeted",
 }
 OUTSIDE = "more groups/batteries/inverters than listed; non-integer distribution exponents; IEEE rounding"
 BUDGET = {"quick": 600, "thorough": 3600}
 
 
-def make(shape, exponent, sign, reach=False):
+from harness.c15 import make_battery_full as make_manager  # noqa: E402,F401  (manager-level accounting of the same distribution)
+
+
+def make(shape, exponent, sign, reach=False, wide_battery=False):
     shape = tuple(tuple(s) for s in shape)
 
     def fn(ex):
-        pairs, groups = dist.build(ex, shape)
+        pairs, groups = dist.build(ex, shape, wide_battery=wide_battery)
         P, dirs = dist.request(ex, groups, sign)
         try:
             res = BatteryDistributionAlgorithm(exponent).distribute_power(P, pairs)
@@ -65,6 +69,12 @@ def instances(tier):
         I("1x1x2-", "make", (s12, 1.0, -1), "1 battery behind 2 inverters, supply", budget_s=200, **kw),
         I("1x2x1+", "make", (s21, 1.0, 1), "2 batteries behind 1 inverter, consume", budget_s=200, **kw),
         I("2x(1x1)+", "make", (((1, 1), (1, 1)), 1.0, 1), "2 groups of 1 battery + 1 inverter, consume", budget_s=400, **kw),
+        I("manager-1x1x1+", "make_manager", (((1, 1),), 1, True), "BatteryManager._distribute_power on the real distribution (all API calls succeed): "
+          "commanded power + excess = request, succeeded_power = commanded power", budget_s=120, **kw),
+        I("manager-1x1x1-", "make_manager", (((1, 1),), -1, True), "same, supply", budget_s=120, **kw),
+        I("manager-1x1x2-", "make_manager", (((1, 2),), -1, True), "same, battery behind 2 inverters, supply", budget_s=200, **kw),
+        I("(1x2|1x2)+wide", "make", (((1, 2), (1, 2)), 1.0, 1, False, True), "2 groups with 2 inverters each; batteries' own limits concrete and non-binding, "
+          "SoC and all inverter bounds symbolic (budgeted)", budget_s=100, exhaustive=False, **kw),
     ]
     if tier == "quick":
         return out
